@@ -10,13 +10,13 @@ CLAIM = ("All 27 mat*mat, 9 mat*vec and 9 vec*mat products, transpose, outerProd
          "component / column-vector constructors, gtc row()/column() getters and setters for every index, the 81 shape-converting constructors, gtx rowMajor*/colMajor*, "
          "matrixCross3/4 and the nine diagonalCxR builders are executed symbolically from their clang IR for every shape; every returned entry is shown equal to a textbook "
          "triple-loop reference written as SMT terms: bit-exact modulo 2^w for integer element types, as a rounding-erased (real) identity for float/double, and IEEE-exact "
-         "(bit-precise floating point) for float/double entries that are integers of magnitude <= 2^7.")
+         "(bit-precise floating point) for float/double entries that are integers of magnitude <= 2^7 (products, sums, differences, and quotients by / from a scalar whenever the quotient is such an integer - quick tier: |quotient|, |divisor| <= 2^4).")
 BOUNDS = ('integer element types: all values, arithmetic modulo 2^w (int32/uint32 quick; +int8/uint8/int16/uint16/int64/uint64 thorough); divisions: divisor != 0 and no INT_MIN/-1; '
           'float/double: every entry symbolic, rounding erased (each fadd/fsub/fmul/fdiv exact), real divisions under divisor != 0; IEEE-exact clause: entries integer-valued with |x| <= 2^7 '
           '(products, sums, differences; bit-precise float32 and float64 semantics, compiled with -ffp-contract=off); row()/column() for every valid constant index; '
           'qualifiers: defaultp (quick), + packed_mediump, packed_lowp for float and int32, aligned_highp for int32 in the GLM_FORCE_INTRINSICS (SSE2) build (thorough: products, conversions, transpose/access, element-wise on 2x3 and 4x4)')
 OUTSIDE = ('magnitude of the rounding differences for general float/double entries (only the rounding-erased identity and the small-integer exact clause are decided); '
-           'IEEE-exact clause for scalar/matrix division; aligned float/double qualifiers and SIMD instruction-set builds (C03); element-type converting constructors mat<C,R,U> -> mat<C,R,T>; out-of-range row()/column() indices (assert)')
+           'aligned float/double qualifiers and SIMD instruction-set builds (C03); element-type converting constructors mat<C,R,U> -> mat<C,R,T>; out-of-range row()/column() indices (assert)')
 ASSUMPTIONS = ['integer overflow in the int32/int64 products wraps modulo 2^w (the property speaks of the mathematical definition; the reference is evaluated modulo 2^w as well)',
                'rounding-erased semantics for float/double obligations named *.real; bit-precise IEEE semantics for obligations named *.exact']
 
@@ -451,6 +451,52 @@ def job_exact(t, fnames):
         for f in fnames: S.check_fn(U, f, None, mode='fp', side=False, witness=False, name='%s.%s.fpvalidate' % (U.name, f))
     return run
 
+def job_divexact(t):
+    """matrix / scalar, matrix /= scalar, scalar / matrix on float/double: whenever the exact quotient is representable (dividend = q * divisor for integers
+    |q|, |divisor| <= 2^7) every returned entry is that quotient exactly.  Decided in two steps: (i) the compiled entry is the very term fp.div(RNE, x, s)
+    of the inputs (syntactic, after z3.simplify) and (ii) the IEEE lemma 'fp.div(q*s, s) == q' for all such integers; when (i) fails the claim is put to the
+    solver directly on the compiled term (bit-precise, integer-valued inputs), and a counterexample is replayed natively."""
+    W = 32 if t == 'f32' else 64; srt = FSORT[W]; U = UNITS[t]
+    def run(S):
+        q, d = z3.BitVec('q', 9), z3.BitVec('d', 9); LIM = 16 if S.quick else 128       # the divider circuit is expensive to bit-blast: 2^4 quick (2-12 s), 2^7 thorough (70-80 s)
+        hy = [q >= -LIM, q <= LIM, d >= -LIM, d <= LIM, d != 0]
+        Q = z3.fpSignedToFP(RNE, q, srt); D = z3.fpSignedToFP(RNE, d, srt); P = z3.fpSignedToFP(RNE, z3.SignExt(9, q) * z3.SignExt(9, d), srt)
+        S.prove('c02.ieee_lemma.div-exact.%s' % t, z3.fpEQ(z3.fpDiv(RNE, P, D), Q), hy, timeout=S.cap(120, 400), kind='lemma', functions=['fp.div %s' % TYPES[t]], bounds='all integers |q|, |d| <= %d, d != 0: fp.div(q*d, d) == q' % LIM)
+        S.prove('c02.ieee_lemma.div-exact-rev.%s' % t, z3.fpEQ(z3.fpDiv(RNE, P, Q), D), hy + [q != 0], timeout=S.cap(120, 400), kind='lemma', functions=['fp.div %s' % TYPES[t]], bounds='all integers 0 < |q|, |d| <= %d: fp.div(q*d, q) == d' % LIM)
+        for (C, R) in SHAPES:
+            N = C * R
+            for fname, nout, mk in (('divs_%d%d' % (C, R), 2 * N, lambda A, s, k: z3.fpDiv(RNE, fpof(A[k % N]), fpof(s))), ('sdiv_%d%d' % (C, R), N, lambda A, s, k: z3.fpDiv(RNE, fpof(s), fpof(A[k])))):
+                res = sym_call(U, fname, mode='fp'); A, s_ = res.ins[0], res.ins[1][0]
+                fnlist = ['w_%s -> %s' % (fname, U.fns[fname].body.strip().replace('\n', ' ')[:160])]
+                for k in range(nout):
+                    lab = ('m/s' if k < N else 'm/=s') if fname.startswith('divs') else 's/m'
+                    oname = '%s.%s.exact-quotient.%s[%d][%d]' % (U.name, fname, lab, (k % N) // R, (k % N) % R)
+                    binfo = 'dividend = q * divisor, integers |q|, |divisor| <= %d, divisor != 0; ll=%s' % (LIM, U.ll_sha())
+                    if z3.simplify(res.outs[0][k].fp).eq(z3.simplify(mk(A, s_, k))):
+                        S.rec(name=oname, kind='spec', functions=fnlist, bounds=binfo, solver='identical term fp.div(x, s) (z3 simplifier) + c02.ieee_lemma.div-exact', result='unsat', time_s=0.0, status='discharged', mandatory=True)
+                        continue
+                    # direct query on the compiled term
+                    sub = []
+                    x = z3.fpToIEEEBV(P)
+                    if fname.startswith('divs'):
+                        sub = [(a_, x) for a_ in A] + [(s_, z3.fpToIEEEBV(D))]; want = Q
+                    else:
+                        sub = [(a_, z3.fpToIEEEBV(Q)) for a_ in A] + [(s_, x)]; want = D
+                    term = z3.substitute(res.outs[0][k].fp, *sub)
+                    def replay(m, fname=fname, k=k):
+                        qv = m.eval(q, model_completion=True).as_signed_long(); dv = m.eval(d, model_completion=True).as_signed_long()
+                        if fname.startswith('divs'): av, sv, w_ = float(qv * dv), float(dv), float(qv)
+                        else: av, sv, w_ = float(qv), float(qv * dv), float(dv)
+                        vals = [[float_to_bits(av, W)] * N, [float_to_bits(sv, W)]]
+                        info = {'unit': U.name, 'fn': fname, 'inputs': [[hex(v) for v in r] for r in vals], 'expected': w_}
+                        bad = False
+                        for cxx in ('g++', 'clang++-14'):
+                            got = bits_to_float(U.call_native(fname, vals, cxx=cxx)[0][k], W); info['native_' + cxx] = got
+                            if got != w_: bad = True
+                        return ('reproduced' if bad else 'not-reproduced'), info
+                    S.prove(oname, z3.fpEQ(term, want), hy + ([q != 0] if not fname.startswith('divs') else []) + res.axioms, timeout=S.cap(60, 200), kind='spec', functions=fnlist, bounds=binfo, replay=replay, vars_=[q, d])
+    return run
+
 def job_ieee_lemma(t, op):
     """IEEE correct rounding returns representable results exactly - the instances used by the exact clause, from the SMT-LIB FloatingPoint semantics"""
     W = 32 if t == 'f32' else 64; srt = FSORT[W]
@@ -482,6 +528,7 @@ def jobs(tier):
             J.append(('exact_%s_mul_%dxN' % (t, C), job_exact(t, ['mul_%d%d' % (C, r) for r in (2, 3, 4)])))
             J.append(('exact_%s_ew_%dxN' % (t, C), job_exact(t, ['ew_%d%d' % (C, r) for r in (2, 3, 4)])))
         for op in ('mul', 'add', 'sub'): J.append(('ieee_lemma_%s_%s' % (op, t), job_ieee_lemma(t, op)))
+        J.append(('divexact_' + t, job_divexact(t)))
     if not q:
         for (t, qn), U in QUNITS.items():
             J.append(('q_%s_%s_mul' % (qn, t), job_mul(t, SHAPES, U)))
